@@ -191,6 +191,39 @@ def run(ctx, F):
                     style_tests.append(d)
                 if "as Comment" in c and "is_compressed" not in c and tm.get("discr_ty") == "bool":
                     text_tests.append(d)
+        if style_tests and not text_tests:
+            # `!compressed || text.starts_with('!')`: the text test lies only on the compressed edge, so it does
+            # not dominate the push.  Accept it when, from the compressed edge of the style test, the push is
+            # reachable only through a two-way test of a value derived from the comment
+            def succs(x):
+                tm = hi.blocks[x]["term"]
+                if tm["k"] == "switch":
+                    return [y[1] for y in tm["targets"]] + ([tm["otherwise"]] if tm.get("otherwise") is not None else [])
+                return [tm["target"]] if tm.get("target") is not None else []
+            text_sw = set()
+            for x in range(len(hi.blocks)):
+                tm = hi.blocks[x]["term"]
+                if tm["k"] == "switch" and tm.get("discr_ty") == "bool" and tm["discr"]["k"] in ("copy", "move"):
+                    c = repr(S.operand(hi, tm["discr"]))
+                    if "as Comment" in c and "is_compressed" not in c:
+                        text_sw.add(x)
+            for d in style_tests:
+                tm = hi.blocks[d]["term"]
+                comp_edge = tm.get("otherwise")          # is_compressed() == true
+                if comp_edge is None or not text_sw:
+                    continue
+                seen, work, reach = set(), [comp_edge], False
+                while work:
+                    x = work.pop()
+                    if x in seen or x in text_sw:
+                        continue
+                    seen.add(x)
+                    if x == bi:
+                        reach = True
+                        break
+                    work.extend(succs(x))
+                if not reach:
+                    text_tests = sorted(text_sw)
         if style_tests and text_tests:
             ctx.ok("F4-comment-keep-rule", "compressed drops a comment depending on its text (`!`)", {"style_tests": style_tests, "text_tests": text_tests})
         elif style_tests:
